@@ -18,7 +18,7 @@ ASSUMPTIONS = [
     "model, checksum functions and address arithmetic as for C10",
 ]
 TRUSTED = ["correspondence harness harness/h_persist.c (fault script on the medium callbacks) + tools/lib/vf.py"]
-DESIGN_REF = "DESIGN.md section 8, C11"
+DESIGN_REF = "DESIGN.md section 0.2 (as built) and section 8, C11"
 TECHNIQUE = "Lean 4 proofs: validation succeeds iff the checksum field equals the checksum of the data image, on ANY medium content (hence after any cut); any short transfer forces the result I/O error (invariant over all access sequences) + fault enumeration in the differential run"
 LEVEL_TEXT = ("Machine-checked proof over the Lean model: on every medium content - in particular after a store cut at any write and torn at any octet - validation "
               "reports success exactly when the checksum on the medium equals the checksum function of the data image on the medium; and for store, validate, fetch and "
